@@ -16,6 +16,7 @@ package main
 import (
 	"fmt"
 	"os"
+	"runtime/pprof"
 	"strconv"
 	"syscall"
 	"time"
@@ -24,7 +25,9 @@ import (
 	"verif/engine/ev"
 )
 
-const memGuard = 6 << 30 // RLIMIT_AS of a worker subprocess: protects the sandbox, see r.Assume below
+var stopProfile = func() {}
+
+const memGuard = 3 << 30 // RLIMIT_AS of a worker subprocess: protects the sandbox, see r.Assume below
 
 func main() {
 	if w, ok := childSpec(); ok {
@@ -55,11 +58,14 @@ func main() {
 
 	var all []pviol
 	// ---- family (a)
-	cases := genCfgCases(thorough)
-	r.Set("cfg_cases_generated", len(cases))
-	fa := runFamily(r, "cfg", len(cases), nshard, func(i int) any { return cases[i] })
-	all = append(all, fa.viols...)
-	r.Set("cfg_worker_crashes", fa.crashes)
+	if os.Getenv("C28_ONLY_REQ") == "" {
+		cases := genCfgCases(thorough)
+		r.Set("cfg_cases_generated", len(cases))
+		fa := runFamily(r, "cfg", len(cases), nshard, func(i int) any { return cases[i] })
+		all = append(all, fa.viols...)
+		r.Set("cfg_worker_crashes", fa.crashes)
+		r.Set("cfg_worker_recycles", fa.recycled)
+	}
 
 	// ---- family (b)
 	if os.Getenv("C28_ONLY_CFG") == "" {
@@ -68,6 +74,7 @@ func main() {
 		fb := runFamily(r, "req", reqs.n(), nshard, func(i int) any { return reqs.describe(i) })
 		all = append(all, fb.viols...)
 		r.Set("req_worker_crashes", fb.crashes)
+		r.Set("req_worker_recycles", fb.recycled)
 	}
 
 	// one violation per signature: the lowest case index (deterministic irrespective of worker timing)
@@ -86,6 +93,11 @@ func main() {
 func childMain(w *worker) {
 	lim := syscall.Rlimit{Cur: memGuard, Max: memGuard}
 	syscall.Setrlimit(syscall.RLIMIT_AS, &lim)
+	if pf := os.Getenv("C28_PPROF"); pf != "" {
+		f, _ := os.Create(pf)
+		pprof.StartCPUProfile(f)
+		stopProfile = pprof.StopCPUProfile
+	}
 	cr := ev.New("C28", "exploration") // only for tier + deadline; never finished
 	thorough := cr.Thorough()
 	switch w.fam {
